@@ -52,18 +52,19 @@ inductive Arg where
   | bool (b : Bool)
   | str (bs : List Nat)
   | nullStr                        -- `const char *` (or wide character pointer) null pointer
-  | wide (src : Utf.Enc) (units : List Nat)
+  | wide (src : Utf.Enc) (m : Mode) (units : List Nat)
       -- wide text: `const wchar_t* / char16_t* / char32_t*` (the units in front of the first zero unit),
       -- `std::basic_string` / `std::basic_string_view` of those types (all units); wchar_t is the
       -- UTF-32 route on this platform.  `format_type` builds an `ST::string` from it under the
-      -- default validation (`from_utf16 / from_utf32 / from_wchar`), then formats its UTF-8 bytes
+      -- default validation `m` of the build (`ST_DEFAULT_VALIDATION`: `from_utf16 / from_utf32 / from_wchar`
+      -- are called without a mode), then formats its UTF-8 bytes
   | float (render : Bool → Option Nat → FloatClass → List Nat)
   deriving Inhabited
 
 /-- wide text: the units fit their C++ type (`char16_t`; `char32_t` / `wchar_t`) and the text is
     below the documented 2^28-unit limit of the conversion functions; vacuous for other arguments -/
 def Arg.WideOk : Arg → Prop
-  | .wide src us => ((src = .utf16 ∧ UnitsLt 65536 us) ∨ (src = .utf32 ∧ UnitsLt (2 ^ 32) us)) ∧ us.length < Generated.hugeBufferSize
+  | .wide src _ us => ((src = .utf16 ∧ UnitsLt 65536 us) ∨ (src = .utf32 ∧ UnitsLt (2 ^ 32) us)) ∧ us.length < Generated.hugeBufferSize
   | _ => True
 
 /-- the values of the argument lie in the range of its C++ type -/
@@ -78,7 +79,7 @@ def Arg.InRange : Arg → Prop
   | .bool _ => True
   | .str bs => bs.length < 2 ^ 31
   | .nullStr => True
-  | .wide src us => (Arg.wide src us).WideOk
+  | .wide src m us => (Arg.wide src m us).WideOk
   | .float _ => True
 
 /-- libc's `snprintf` reports a positive size for every rendering of this argument (vacuous for
